@@ -281,7 +281,7 @@ def r1(p, rep):
                 else:
                     rep.ok("C16.R1", key, site, "sorted() without key")
                 continue
-            if kind in ("genexp", "listcomp", "list", "tuple") and isinstance(par, ast.Call) and isinstance(par.func, ast.Name) and (par.func.id in ORDER_FREE_CALLS or (par.func.id == "sorted" and not par.keywords)):
+            if kind in ("genexp", "listcomp", "list", "tuple") and isinstance(par, ast.Call) and isinstance(par.func, ast.Name) and ((par.func.id in ORDER_FREE_CALLS and not (par.func.id in ("max", "min") and any(k.arg == "key" for k in par.keywords))) or (par.func.id == "sorted" and not par.keywords)):
                 rep.ok("C16.R1", key, site, f"consumed by order-free {par.func.id}()")
                 continue
             # (a') handed to a helper that only looks at its argument in order-free ways
